@@ -17,9 +17,9 @@ cargo test --offline --test "$NAME" 2>&1 | grep -E "^test result|error(\[|:)" | 
 git apply --check "$S/patch.diff" || { echo "patch does not apply"; exit 2; }
 git apply "$S/patch.diff"
 echo "== with patch: existing suite (demo excluded)"
-mv "tests/$NAME.rs" /tmp/$NAME.rs.hold
+mv "tests/$NAME.rs" /tmp/$NAME.rs.hold.$$
 cargo test --offline 2>&1 | grep -E "^test result" | awk '{p+=$4; f+=$6} END {print "passed="p" failed="f}'
-mv /tmp/$NAME.rs.hold "tests/$NAME.rs"
+mv /tmp/$NAME.rs.hold.$$ "tests/$NAME.rs"
 echo "== with patch: demo"
 cargo test --offline --test "$NAME" 2>&1 | grep -E "^test result|error(\[|:)" | head -3
 git checkout -q -- . ; rm -f "tests/$NAME.rs"
